@@ -50,6 +50,10 @@ func (c *Ctx) pipelineTable() map[string]pipeOutcome {
 		}
 		tab[pipeKey(o.Flags, o.Parses, o.HasSyntax, o.Conflict)] = o
 	}
+	if m := regexp.MustCompile(`the maximum (\d+) and the 95th`).FindStringSubmatch(r.Out); m == nil || m[1] != "1" {
+		infra("Pipeline.tla is not deterministic (maximum out-degree %v)", m)
+	}
+	c.Set("pipeline_max_outdegree", 1)
 	if len(tab) < 100 {
 		infra("Pipeline outcome table has only %d rows", len(tab))
 	}
